@@ -34,14 +34,14 @@ func cmdVC(args []string) int {
 	}
 	rc := 0
 	for _, name := range fs.Args() {
-		fn := p.Funcs[name]
-		if fn == nil {
-			fmt.Fprintf(os.Stderr, "no function %s\n", name)
-			return 2
-		}
 		con := specs.Contracts[name]
 		if con == nil {
 			fmt.Fprintf(os.Stderr, "no contract for %s\n", name)
+			return 2
+		}
+		fn := p.Funcs[name]
+		if fn == nil && con.Kind != "lemma" {
+			fmt.Fprintf(os.Stderr, "no function %s\n", name)
 			return 2
 		}
 		modes := con.Arith
